@@ -7,6 +7,9 @@ VERIF = os.path.dirname(os.path.dirname(os.path.abspath(__file__)))
 SRC = "/tmp/mut"
 
 NEEDS = {
+ "C16g": "AddSwapRoutes with an EMPTY route list sent by a non-admin",
+ "C16h": "NextLoan sent by an address naming itself as source_vault for an asset that has a registered vault",
+ "C16i": "RemoveSwapRoutes for an existing route sent by a non-admin",
  "C11g": "a caller whose closed positions total exactly 1 LP base unit",
  "C11h": "a user with two open positions of different amounts closing the one that is not first in their list",
  "C11i": "a user with at least two open positions closing one (the shortened list is never written back)",
